@@ -46,6 +46,13 @@ def make(spec, gen):
     base = (torch.randn(shape, generator=gen) * spec.get("mag", 1.0)).to(dtype)
     if spec.get("saturate"):
         base.view(-1)[0] = base.abs().max() * 4
+    if spec.get("zeros"):
+        # signed zeros and values that underflow to +-0 in the 8-bit type: half of the elements, alternating signs
+        flat = base.view(-1)
+        tiny = torch.tensor([0.0, -0.0, 1e-9, -1e-9], dtype=dtype)
+        off = int(spec["zeros"])
+        for i in range(0, flat.numel(), 2):
+            flat[i] = tiny[(i // 2 + off) % 4]
     if kind == "plain":
         return base
     if kind == "bool":
@@ -59,6 +66,20 @@ def make(spec, gen):
     if kind == "qweight":  # per-axis 8-bit, or int2/int4 packed
         return quantize_weight(base, QT[spec["qtype"]], spec.get("axis", 0), spec.get("group_size"))
     raise KeyError(kind)
+
+
+def _to_then_overwrite(x, dt, z):
+    x1 = x.clone()
+    y = x1.to(dt)
+    x1.copy_(z)
+    return y
+
+
+def _clone_then_overwrite(x, z):
+    x1 = x.clone()
+    y = x1.detach().clone()
+    x1.copy_(z)
+    return y
 
 
 OPS = {
@@ -81,6 +102,10 @@ OPS = {
     "contiguous": ("move", lambda x: x.contiguous()),
     "to_cpu": ("move", lambda x: x.to("cpu")),
     "to_dtype": ("dtype", lambda x, dt: x.to(DT[dt])),
+    # a history: convert a private copy to another dtype, overwrite the copy in place (copy_ is the one intercepted op that
+    # writes), then read the converted tensor: it must still hold the values it had (torch's .to(other dtype) never aliases)
+    "to_dtype_then_overwrite": ("dtype", lambda x, dt, z: _to_then_overwrite(x, DT[dt], z)),
+    "clone_then_overwrite": ("move", lambda x, z: _clone_then_overwrite(x, z)),
     "cat_self": ("move", lambda x: torch.cat([x, x])),
     "cat2": ("move", lambda x, y: torch.cat([x, y])),
     "stack_self": ("move", lambda x: torch.stack([x, x])),
